@@ -1,5 +1,6 @@
 import ParryModel.Proto
 import ParryModel.C11.Model
+import ParryModel.C11.PseudoNormals
 /-!
 C11 protocol handlers (`hist3`, `hist2`): the model of the TriMesh state machine run on an operation
 history at `Float` (bit-exact print of every state), and the oracle that re-judges the real mesh's state
@@ -14,35 +15,13 @@ open Model Model.TM Proto
 
 /-! ## geometry at `Float` -/
 
-/-- nalgebra `Matrix::angle` -/
-def angle3 (u v : V3 Float) : Float :=
-  let prod := u.dot v
-  let n1 := u.norm
-  let n2 := v.norm
-  if n1 == 0 || n2 == 0 then 0 else
-    let cang := prod / (n1 * n2)
-    Float.acos (nclamp cang (-1) 1)
+/-- the 3-D geometry at `Float`: the scalar-polymorphic `geoK` of `C11/PseudoNormals.lean` (nalgebra `Matrix::angle`,
+`Triangle::normal()`, the three angle weights) with the libm arc-cosine -/
+def angle3 (u v : V3 Float) : Float := angleK Float.acos u v
 
-/-- `f64::EPSILON` (`DEFAULT_EPSILON`) -/
-def feps : Float := Float.ofBits 0x3CB0000000000000
+def contrib3 (a b c : V3 Float) : Option (V3 Float × V3 Float × V3 Float × V3 Float) := contribK Float.acos a b c
 
-/-- `Triangle::normal()` + the three `angle`s of `compute_pseudo_normals` -/
-def contrib3 (a b c : V3 Float) : Option (V3 Float × V3 Float × V3 Float × V3 Float) :=
-  let sn := (b.sub a).cross (c.sub a)
-  let n := sn.norm
-  if n ≤ feps then none else
-    let nrm := sn.sdiv n
-    let ang1 := angle3 (b.sub a) (c.sub a)
-    let ang2 := angle3 (a.sub b) (c.sub b)
-    let ang3 := angle3 (b.sub c) (a.sub c)
-    some (nrm, nrm.smul ang1, nrm.smul ang2, nrm.smul ang3)
-
-instance geo3 : Geo (V3 Float) (V3 Float) where
-  veq p q := p.x == q.x && p.y == q.y && p.z == q.z
-  nzero := ⟨0, 0, 0⟩
-  nadd := V3.add
-  nneg := V3.neg
-  contrib := contrib3
+instance geo3 : Geo (V3 Float) (V3 Float) := geoK Float.acos
 
 /-- 2-D: no pseudo-normals -/
 instance geo2 : Geo (V2 Float) Unit where
@@ -640,6 +619,62 @@ def pcontains : P (RawMesh (V3 Float) × List (RawOp (V3 Float)) × List (V3 Flo
 def trisOf (s : Mesh (V3 Float) (V3 Float)) : List (V3 Rat × V3 Rat × V3 Rat) :=
   ((allCoords s.vertices s.indices).getD []).map fun c => (q3 c.1, q3 c.2.1, q3 c.2.2)
 
+/-! ## `pnsign3`: the pseudo-normal sign test at vertices and edges of a closed oriented mesh
+
+Item: `v vid 0 p f` / `e tri slot p f` — `p` the query point, `f` the point of the feature the generator built `p` over.
+Model: `insideBy (p - feature point) pn` with the model's own pseudo-normals of the final state (`vertices_pseudo_normal[vid]`,
+`edges_pseudo_normal[tri][slot]`), i.e. the decision `dpt.dot(&pseudo_normal) <= 0.0` of `project_local_point_and_get_location`
+under the assumption that the closest point is on that feature; for a vertex also the dot product itself (bit for bit).
+Oracle (independent of the model): exact crossing parity on the input triangles; only points whose exact closest point on
+the mesh is `f` (squared distance to `f` = minimum over all triangles of the exact squared distance) and that are farther
+than 1e-6 from the surface are judged. -/
+def ppnitem : P (Bool × Nat × Nat × V3 Float × V3 Float) := do
+  let k ← tok; let i0 ← pnat; let i1 ← pnat; let p ← pv3; let f ← pv3; pure (k == "v", i0, i1, p, f)
+
+def ppnsign : P (RawMesh (V3 Float) × List (RawOp (V3 Float)) × List (Bool × Nat × Nat × V3 Float × V3 Float)) := do
+  let m ← pmesh pv3; let ops ← plist (pop pv3); let its ← plist ppnitem; pend; pure (m, ops, its)
+
+def pnsignModel (s : Mesh (V3 Float) (V3 Float)) (it : Bool × Nat × Nat × V3 Float × V3 Float) : String :=
+  let (isV, i0, i1, p, f) := it
+  match s.pn with
+  | none => "nopn"
+  | some pn =>
+    if isV then
+      match s.vertices[i0]?, pn.vertices[i0]? with
+      | some v, some n => let d := p.sub v; s!"{fb (insideBy d n)} {ff (d.dot n)}"
+      | _, _ => "bad"
+    else
+      match pn.edges[i0]? with
+      | some (e0, e1, e2) =>
+        if i1 > 2 then "bad" else
+        let n := if i1 = 0 then e0 else if i1 = 1 then e1 else e2
+        s!"{fb (insideBy (p.sub f) n)} -"
+      | none => "bad"
+
+def pnsignOracle (m : RawMesh (V3 Float)) (its : List (Bool × Nat × Nat × V3 Float × V3 Float)) (o : List String) : String :=
+  if o = ["nobuild"] then "skip nobuild" else
+  if o.length != 2 * its.length then "fail unparsable-output" else
+  let bits := (List.range its.length).map fun k => o.getD (2 * k) "?"
+  let tris : List (V3 Rat × V3 Rat × V3 Rat) :=
+    ((allCoords m.vs m.idx).getD []).map fun c => (q3 c.1, q3 c.2.1, q3 c.2.2)
+  let tol : Rat := 1 / 1000000
+  let res := (its.zip bits).map fun (it, bit) =>
+    let P := q3 it.2.2.2.1
+    let F := q3 it.2.2.2.2
+    match tris.map (fun t => distSqTri P t.1 t.2.1 t.2.2) with
+    | [] => (0 : Nat)
+    | d0 :: ds =>
+      let dmin := ds.foldl (fun a b => if b < a then b else a) d0
+      if dmin < tol * tol then 0 else
+      if (P.sub F).normSq != dmin then 0 else
+      match insideParity tris P dirsB with
+      | none => 0
+      | some ins => if fb ins = bit then 1 else 2
+  match res.findIdx? (· == 2) with
+  | some k => s!"fail item {k} pseudo-normal sign test disagrees with the crossing parity"
+  | none => if res.any (· == 1) then "pass" else "skip no-point-with-that-closest-feature"
+
+
 /-! ## `histq3` / `histq2`: real queries on the final mesh of a history (oracle only, C20's panic / NaN clause)
 
 The harness replays the history of a `hist3` / `hist2` case and runs ray casts, point projections and ball queries on the
@@ -1033,6 +1068,14 @@ def handler (fn : String) : Option Handler :=
           match res.findIdx? (· == 2) with
           | some k => s!"fail point {k} contains_local_point disagrees with the crossing parity"
           | none => if res.any (· == 1) then "pass" else "skip all-points-near-surface" }
+  | "pnsign3" => some {
+      model := fun a => (run ppnsign a).map fun (m, ops, its) =>
+        match finalState (N := V3 Float) true m ops with
+        | none => "nobuild"
+        | some s => " ".intercalate (its.map (pnsignModel s))
+      oracle := fun a o => match run ppnsign a with
+        | none => "skip bad-args"
+        | some (m, _, its) => pnsignOracle m its o }
   | "hist3w" => some {
       model := fun a => (run (pcase pv3) a).map fun (m, ops) => runHist (N := V3 Float) true true m ops
       oracle := fun a o => match run (pcase pv3) a with
